@@ -5,6 +5,8 @@
 // type-checks. It is injected into the repository by a build overlay (never written to /repo).
 package vsym
 
+import "github.com/cronokirby/saferith"
+
 // Int returns an arbitrary int in [lo, hi].
 func Int(name string, lo, hi int) int { return lo }
 
@@ -99,3 +101,9 @@ func Native() bool { return false }
 // CborFor returns the bytes of an arbitrary CBOR document for the type of *dst (engine: a token that the cbor model
 // decodes as "anything a decoder can produce in *dst"; native replay: real CBOR bytes built from the solver's model).
 func CborFor(dst interface{}, name string) []byte { return nil }
+
+// SymNat returns an arbitrary natural number below 2^bits (a mathematical integer for the solver).
+func SymNat(name string, bits int) *saferith.Nat { return new(saferith.Nat) }
+
+// SymInt returns an arbitrary integer with |v| < 2^bits.
+func SymInt(name string, bits int) *saferith.Int { return new(saferith.Int) }
